@@ -558,6 +558,10 @@ func (f *FuncVC) loopHead(st *State, li *loopInfo) {
 		if li.con.Decreases != nil {
 			d := ev.eval(li.con.Decreases.Expr)
 			li.d0 = f.sc.define("dec0", "Int", d.T)
+			if li.con.Decreases2 != nil {
+				d2 := ev.eval(li.con.Decreases2.Expr)
+				li.d02 = f.sc.define("dec02", "Int", d2.T)
+			}
 		}
 	}
 	li.headSt = st.clone()
@@ -591,6 +595,10 @@ func (f *FuncVC) frameAxiom(st *State, name, sort, fresh, old string) {
 			if prefixCovers(m.heap, name) {
 				guard = append(guard, not(eq(q, m.obj)))
 			}
+		case "heap":
+			if prefixCovers(m.heap, name) {
+				return
+			}
 		}
 	}
 	entry := f.heap(f.entry, name, sort)
@@ -618,7 +626,12 @@ func (f *FuncVC) backEdge(es *edgeState, li *loopInfo) {
 	}
 	if li.con.Decreases != nil {
 		d := ev.eval(li.con.Decreases.Expr)
-		f.oblige(st, "decreases", fmt.Sprintf("loop%d:%s", li.ordinal, li.con.Decreases.Text), and(cmp("<", d.T, li.d0), cmp(">=", li.d0, "0")))
+		goal := and(cmp("<", d.T, li.d0), cmp(">=", li.d0, "0"))
+		if li.con.Decreases2 != nil {
+			d2 := ev.eval(li.con.Decreases2.Expr)
+			goal = or(goal, and(eq(d.T, li.d0), cmp("<", d2.T, li.d02), cmp(">=", li.d02, "0")))
+		}
+		f.oblige(st, "decreases", fmt.Sprintf("loop%d:%s", li.ordinal, li.con.Decreases.Text), goal)
 	} else if li.autoMap != "" {
 		_, ln, _, _ := f.mapHeaps(st, nil, li.autoMapT)
 		cnt := f.heap(st, "R:cnt", "(Array Int Int)")
